@@ -607,17 +607,25 @@ def emit_item(item, opts, drops):
             # hints: insert before the line containing the anchor (within body)
             body_lo = s.toks[sig[fp.body_open]][2]
             body_hi = s.toks[sig[fp.body_close]][1]
-            for (anchor, occ, text, where) in (opts.get("hints") or []):
+            # Hints of one function may depend on each other (ghost variables): if ANY anchor is lost, ALL
+            # hints of the function are dropped (the proof is then attempted without them) instead of
+            # emitting text that no longer compiles.
+            hint_list = list(opts.get("hints") or [])
+            for (anchor, occ, text, where) in hint_list:
                 pos = body_lo - 1
-                ok = True
                 for _ in range(occ + 1):
                     pos = s.text.find(anchor, pos + 1, body_hi)
                     if pos < 0:
-                        ok = False
+                        lost_hints.append(anchor)
                         break
-                if not ok:
-                    lost_hints.append(anchor)
-                    continue
+            if lost_hints:
+                hint_list = []
+                if opts.get("body_first_is_hint"):
+                    pass
+            for (anchor, occ, text, where) in hint_list:
+                pos = body_lo - 1
+                for _ in range(occ + 1):
+                    pos = s.text.find(anchor, pos + 1, body_hi)
                 if where == "before":
                     ls = s.text.rfind("\n", 0, pos) + 1
                     tk = next(k for k in range(item.first, item.last + 1) if s.toks[k][2] > ls and s.toks[k][0] != "ws")
@@ -636,6 +644,8 @@ def emit_item(item, opts, drops):
             replace[sig[eqp]] = "\n" + (opts.get("clauses") or "") + "\n{\n" + ((opts["body_first"] + "\n") if opts.get("body_first") else "")
             replace[sig[b]] = "\n}"
             drops.append("const re-bracketed as `exec const N: T <contract> { <initializer> }` (initializer verbatim)")
+    if item.kind == "fn" and opts.get("tail_continue"):
+        _tail_continue(item, skip, add_after, add_before, drops)
     out = []
     for k in range(item.first, item.last + 1):
         if k in ins_before:
@@ -652,6 +662,88 @@ def emit_item(item, opts, drops):
     # tidy blank lines left by dropped doc comments
     text = re.sub(r"\n[ \t]*\n([ \t]*\n)+", "\n\n", text)
     return text, lost_hints
+
+
+def _tail_continue(item, skip, add_after, add_before, drops):
+    """`if C { continue; } REST` at the start/middle of a match-arm block, where the `match` is the ONLY
+    statement of the enclosing loop body, is rewritten to `if C { } else { REST }` (Verus does not support
+    `continue` in for-loops).  Purely syntactic conditions are checked; anything else is a lost anchor."""
+    s = item.src
+    sig = s.sig
+    a, b = sig.index(item.first), sig.index(item.last)
+    n = 0
+    p = a
+    while p + 3 <= b:
+        if not (s.tt(sig[p]) == "{" and s.tt(sig[p + 1]) == "continue" and s.tt(sig[p + 2]) == ";" and s.tt(sig[p + 3]) == "}"):
+            p += 1
+            continue
+        if_close = p + 3
+        # (a) the `if` has no else
+        if s.tt(sig[if_close + 1]) == "else":
+            raise ExtractError("tail_continue: `if {continue;}` already has an else branch")
+        # find the `if` keyword: scan back to the nearest `if` at the same depth whose block is this one
+        q = p - 1
+        depth = 0
+        while q > a:
+            w = s.tt(sig[q])
+            if w in (")", "]", "}"):
+                q = sig.index(s.match[sig[q]], 0, q)
+            elif w == "if":
+                break
+            elif w in ("{", ";"):
+                raise ExtractError("tail_continue: cannot find the `if` of a `{ continue; }` block")
+            q -= 1
+        if_kw = q
+        # enclosing block B of the `if`
+        blk_open = None
+        r = if_kw - 1
+        while r > a:
+            w = s.tt(sig[r])
+            if w in (")", "]", "}"):
+                r = sig.index(s.match[sig[r]], 0, r)
+            elif w == "{":
+                blk_open = r
+                break
+            r -= 1
+        if blk_open is None:
+            raise ExtractError("tail_continue: no enclosing block")
+        blk_close = sig.index(s.match[sig[blk_open]], blk_open)
+        # (b) B is a match-arm block:  `=> {`
+        if not (s.tt(sig[blk_open - 1]) == ">" and s.tt(sig[blk_open - 2]) == "="):
+            raise ExtractError("tail_continue: `if {continue;}` is not directly inside a match-arm block")
+        # the match body block M encloses B; the loop body L encloses M and holds nothing else
+        r = blk_open - 1
+        m_open = None
+        while r > a:
+            w = s.tt(sig[r])
+            if w in (")", "]", "}"):
+                r = sig.index(s.match[sig[r]], 0, r)
+            elif w == "{":
+                m_open = r
+                break
+            r -= 1
+        m_close = sig.index(s.match[sig[m_open]], m_open)
+        r = m_open - 1
+        l_open = None
+        while r > a:
+            w = s.tt(sig[r])
+            if w in (")", "]", "}"):
+                r = sig.index(s.match[sig[r]], 0, r)
+            elif w == "{":
+                l_open = r
+                break
+            r -= 1
+        if l_open is None or s.tt(sig[l_open + 1]) != "match" or s.tt(sig[m_close + 1]) != "}":
+            raise ExtractError("tail_continue: the match is not the only statement of the loop body")
+        skip.add(sig[p + 1])
+        skip.add(sig[p + 2])
+        add_after(sig[if_close], " else {")
+        add_before(sig[blk_close], "} ")
+        n += 1
+        p = if_close + 1
+    if n == 0:
+        raise ExtractError("tail_continue: no `if .. { continue; }` found")
+    drops.append(f"tail-continue desugaring x{n}: `if C {{ continue; }} REST` -> `if C {{ }} else {{ REST }}` (match is the only statement of the loop body)")
 
 
 def fn_signature_text(item, opts):
